@@ -13,6 +13,12 @@ For every pair of distinct matrices over one namespace object, with `other` = ot
   all five           raise TaxonNamespaceIdentityError exactly when the two matrices refer to different namespace
                      objects (and then change nothing); `other` keeps its rows, its sequence objects and their lengths
 
+  remove_sequences / discard_sequences(taxa)   rows' = rows minus the taxa named; every remaining row keeps its very sequence object and length
+                     (remove_sequences may raise KeyError instead; discard_sequences never does)
+  keep_sequences(taxa)                          rows' = rows that are named; the same
+  (`taxa` is any iterable: a holder object whose iteration is the ghost list g_items -- ASSUMED: iterating it twice yields the same
+  elements; `set(taxa)` is a set S with S[at(g_items, j)] for every position and a witness position for every member)
+
 `self.__class__.character_sequence_type` is read as "some CharacterDataSequence class" (an AST obligation checks that every
 matrix class assigns a subclass of CharacterDataSequence to it); its constructor and `extend` are under contract too."""
 import ast
@@ -126,6 +132,39 @@ CONTRACTS = [
            extra_types={"is_add_new_sequences": "bool"}),
 ]
 
+# ---- the row-REMOVING methods: the argument is any iterable of taxa, modelled as a holder object whose iteration is the ghost list g_items
+ROWS_OK = (Q("implies(%s, %s)" % (has(M, "t"), notnone(get(M, "t")))) + " and " + ROWS_DISTINCT + " and " + LEN_NONNEG + " and not has(%s, None)" % M)
+ROW_KEPT = "implies({h}, {g} == pre({g}) and {l} == pre({l}))".format(h=has(M, "t"), g=get(M, "t"), l=L(get(M, "t")))
+
+
+def _named(upto):
+    return "exists_int(lambda j: 0 <= j and j < %s and at(taxa.g_items, j) == t)" % upto
+
+
+def _rows_after(upto, keep):
+    return "%s == (pre(%s) and %s%s)" % (has(M, "t"), has(M, "t"), "" if keep else "not ", _named(upto))
+
+
+def _removal(name, keep=False, allowed=()):
+    if keep:
+        # for taxon in tuple(self._taxon_sequence_map.keys()): the rows visited so far are those that are named
+        inv = Q("%s == (pre(%s) and (not seen(t) or %s))" % (has(M, "t"), has(M, "t"), _named("length(taxa.g_items)")))
+    else:
+        inv = Q(_rows_after("loop_index()", False))
+    return Contract(CM + ":CharacterMatrix." + name, types={"taxa": "ref:TaxaArg"}, requires=ROWS_OK, modifies=["self._taxon_sequence_map"], frame=False,
+                    locals={"taxon": "ref:Taxon"}, allowed_raises=allowed, loops={0: Loop(invariant=inv + " and " + Q(ROW_KEPT))},
+                    ensures={"rows-are-exactly-those-%s" % ("named" if keep else "not-named"): E(Q(_rows_after("length(taxa.g_items)", keep))),
+                             "remaining-rows-keep-their-sequence-object-and-length": E(Q(ROW_KEPT))})
+
+
+REMOVALS = [
+    _removal("discard_sequences"),
+    # remove_sequences may raise KeyError (a taxon without a row, or named twice); on a normal return it has done what discard_sequences does
+    _removal("remove_sequences", allowed=("KeyError",)),
+    _removal("keep_sequences", keep=True),
+]
+SCHEMA["TaxaArg.g_items"] = "ghost reflist:Taxon"
+
 SEQ = [
     Contract(CM + ":CharacterDataSequence.__init__",
              types={"character_values": "opt ref:CharacterDataSequence", "character_types": "opaque", "character_annotations": "opaque"},
@@ -141,7 +180,7 @@ SEQ = [
 
 class RowExecutor(Executor3):
     lenient = True
-    iter_views = {"CharacterDataSequence": "_character_values"}
+    iter_views = {"CharacterDataSequence": "_character_values", "TaxaArg": "g_items"}
 
     def attr_of(self, st, base, attr, lineno):
         # self.__class__.character_sequence_type: some CharacterDataSequence class (AST obligation below)
@@ -161,7 +200,7 @@ class RowExecutor(Executor3):
         return Executor3.bi_list(self, e, st)
 
 
-SUITE = Suite(SCHEMA, [CM, "dendropy.datamodel.taxonmodel"], CONTRACTS + SEQ, executor_cls=RowExecutor)
+SUITE = Suite(SCHEMA, [CM, "dendropy.datamodel.taxonmodel"], CONTRACTS + REMOVALS + SEQ, executor_cls=RowExecutor)
 
 
 def sequence_type_obligation(ctx):
@@ -212,6 +251,8 @@ def t1(ctx):
     sequence_type_obligation(ctx)
     for c in SEQ + CONTRACTS:
         verify_contract(ctx, SUITE, c, sentinels=False, replay=dreplay.replay_by_search(_states))
+    for c in REMOVALS:
+        verify_contract(ctx, SUITE, c, sentinels=False, replay=dreplay.replay_by_search(_removal_states))
 
 
 # ----------------------------------------------------------------------------- native replay: pairs of small matrices
@@ -240,3 +281,22 @@ def _states(c):
             kw["is_add_new_sequences"] = flag
         yield kw, uni, "self rows %s, argument rows %s, %s namespace%s" % (
             [ns[i].label for i in mine], [ns2[i].label for i in theirs], "same" if same_ns else "another", ", is_add_new_sequences" if flag else "")
+
+
+class TaxaArg(list):
+    """the `taxa` argument as the contracts see it: an iterable whose elements are at(taxa.g_items, j)"""
+    g_items = property(lambda self: list(self))
+
+
+def _removal_states(c):
+    import itertools
+    import dendropy
+    rows = ((), (0,), (0, 1), (0, 1, 2))
+    named = ((), (0,), (1, 0), (2,), (0, 0), (2, 0), (0, 2, 1), (1, 1, 2))
+    for mine, arg in itertools.product(rows, named):
+        ns = dendropy.TaxonNamespace(["A", "B", "C"])
+        a = dendropy.DnaCharacterMatrix(taxon_namespace=ns)
+        for i in mine:
+            a[ns[i]] = "AC" * (i + 1)
+        uni = {"Taxon": list(ns), "CharacterDataSequence": list(a._taxon_sequence_map.values())}
+        yield dict(self=a, taxa=TaxaArg(ns[i] for i in arg)), uni, "rows %s, taxa named %s" % ([ns[i].label for i in mine], [ns[i].label for i in arg])
